@@ -22,7 +22,8 @@ def C36_full : Prop :=
     C36.wildmatch m p t = Spec.C36.wildmatch (flagsOf m) p t
 
 /-- `C36_full` restricted to what is not excluded by the known deviation (`PatOk`) — stated, not proved
-in general (T1 and T2 below are its star-free and one-star instances). -/
+in general (T1 and T2 below are its star-free and one-star instances; what is missing is two or more
+stars, where gitoxide's NoMatch-for-ABORT_ALL needs the semantic soundness of git's abort codes). -/
 def C36_full_modulo_icase : Prop :=
   ∀ (m : Mode) (p t : Bytes), PatOk m p → NoNul t → (p.filter (· == 42)).length < 64 →
     C36.wildmatch m p t = Spec.C36.wildmatch (flagsOf m) p t
@@ -47,6 +48,27 @@ example : PatOk ⟨true, false⟩ [97, 91, 33, 98, 45, 100, 91, 58, 100, 105, 10
   ⟨by decide, by intro h; cases h⟩
 example : PatOk ⟨true, true⟩ [65, 92, 47, 63] := ⟨by decide, fun _ => ⟨by decide, by decide⟩⟩
 example : C36.wildmatch ⟨true, false⟩ [97, 91, 33, 98, 45, 100, 91, 58, 100, 105, 103, 105, 116, 58, 93, 93, 63] [97, 120, 122] = true := by
+  decide +kernel
+
+/-- T2. Patterns with at most one `*` byte (so no `**`), anything else around it — literals, `?`,
+escapes, bracket expressions —, all four modes: `wildmatch` gives git's answer. This covers the loop
+behind the star on both sides (the "advance to the next literal" scan, the recursive calls on every
+text suffix, `*` not crossing `/` in path mode, `*/` jumping to the next slash, ABORT_ALL and
+ABORT_TO_STARSTAR) and the one place where the results differ although the answer does not:
+entering the loop with the text exhausted gitoxide says NoMatch where git says ABORT_ALL. -/
+theorem single_star_eq (m : Mode) (p t : Bytes) (hok : PatOk m p)
+    (hone : (p.filter (· == 42)).length ≤ 1) (ht : NoNul t) :
+    C36.wildmatch m p t = Spec.C36.wildmatch (flagsOf m) p t := by
+  unfold C36.wildmatch Spec.C36.wildmatch matchRecursive RECURSION_LIMIT
+  have h := go_rel_onestar m 63 p t hok hone (by decide) ht (p.length + 1) p t 0 0 none (by simp) (by simp) (by simp)
+  simp only [Iter.ofSlice]
+  rcases h with h | ⟨h1, h2⟩
+  · rw [h]; cases dowild (flagsOf m) (p.length + 1) none p t <;> rfl
+  · rw [h1, h2]; rfl
+
+-- non-vacuity: `a*[!b-d]/?` in path mode, and a match that needs the scan and a recursive call
+example : PatOk ⟨true, false⟩ [97, 42, 91, 33, 98, 45, 100, 93, 47, 63] := ⟨by decide, by intro h; cases h⟩
+example : C36.wildmatch ⟨true, false⟩ [97, 42, 91, 33, 98, 45, 100, 93, 47, 63] [97, 120, 99, 120, 47, 122] = true := by
   decide +kernel
 
 /-- `C36_full` is FALSE of today's code: with IGNORE_CASE, `[A]` matches `a` in gitoxide, not in git
